@@ -18,7 +18,8 @@ CONFIGS_THOROUGH = {"hash0": {"PYTHONHASHSEED": "0"}, "hash1": {"PYTHONHASHSEED"
 
 ID = "C03"
 RULE = ("generated fragment-F domains with unconditional, conditional (when) and universally quantified (forall-when) "
-        "discrete and numeric effects x states x type-correct calls, restricted to calls the reference finds "
+        "discrete and numeric effects x states (also large values, and facts additionally stored under their arguments' own "
+        "subtypes as earlier add effects leave them) x type-correct calls, restricted to calls the reference finds "
         "applicable and whose simultaneously firing effects are consistent (others counted as skipped); every case is "
         "applied under the natural order and under drawn permutations of the lifted and grounded effect collections "
         "and of the object table (every other permuted run passes allow_inapplicable_actions=True, which must not matter for an applicable action; the first permuted run and every third natural run apply the Operator object a second time).  Non-trivial = the action has a conditional or quantified effect whose condition is "
